@@ -340,7 +340,7 @@ func ruleC12(c *Ctx, r *Report) {
 		// the verbs the tool declared when the rule was written, plus the remaining commands
 		// that carry a query predicate the tool redacts (distinct, mapReduce): their
 		// collection is "the collection named by the command verb" just the same
-		required := []string{"ns", "aggregate", "insert", "find", "update", "collection", "delete", "$db", "count", "findAndModify", "findOneAndDelete", "replace", "findOneAndReplace", "findOneAndUpdate", "getIndexes", "countDocuments", "distinct", "mapReduce"}
+		required := []string{"ns", "aggregate", "insert", "find", "update", "collection", "delete", "$db", "count", "findAndModify", "findOneAndDelete", "replace", "findOneAndReplace", "findOneAndUpdate", "getIndexes", "countDocuments", "distinct", "mapReduce", "findandmodify"}
 		have := map[string]bool{}
 		for _, k := range keys {
 			have[k] = true
@@ -1005,6 +1005,9 @@ func planSummaryTokenizerRule(c *Ctx, r *Report, planFn *ssa.Function) {
 		{"IXSCAN { homeAddress.postcode: 1, a_b.c-d: -1 }", []string{"homeAddress.postcode", "a_b.c-d"}},
 		{"IXSCAN { _id: 1 }, IXSCAN { orders.items.sku : 1, ts:-1 }", []string{"_id", "orders.items.sku", "ts"}},
 		{"COLLSCAN", nil},
+		{"COUNT_SCAN { status: 1 }", []string{"status"}},
+		{"DISTINCT_SCAN { city: 1, owner.name: 1 }", []string{"city", "owner.name"}},
+		{"EXPRESS_IXSCAN { _id: 1 }", []string{"_id"}},
 		{"IXSCAN { caf\u00e9.prix: 1, $**: 1 }", []string{"caf\u00e9.prix", "$**"}},
 	}
 	var bad []string
